@@ -277,6 +277,7 @@ type c7slot struct {
 	depth int
 	conc  bool
 	seed  *Rng
+	fam   *c7famSpec
 }
 
 func c7Slots(c *Cfg, repo string, r *Rng) []c7slot {
@@ -317,6 +318,16 @@ func c7Slots(c *Cfg, repo string, r *Rng) []c7slot {
 	for i := range slots {
 		slots[i].seed = pr.Sub()
 	}
+	// the "repeated declarations" family (c07_fam.go); appended last so that the slots above keep
+	// their indices and seeds
+	fr := r.Sub()
+	for i, sp := range c7FamSpecs(c, fr.Sub()) {
+		sp := sp
+		slots = append(slots, c7slot{prog: c7prog{name: fmt.Sprintf("fam#%d:%s:%s", i, sp.pos.name, sp.seqName()), stream: "fam"}, fam: &sp, seed: fr.Sub()})
+	}
+	for _, p := range c7FamWitnesses() {
+		slots = append(slots, c7slot{prog: p, seed: fr.Sub()})
+	}
 	return slots
 }
 
@@ -328,6 +339,9 @@ type c7runner struct {
 	idx     int
 	timeout time.Duration
 	profs   []c7profile
+	// suppress: failures are counted and returned by check but not reported (c07_fam.go re-runs
+	// the parts of a failing family program one by one)
+	suppress bool
 }
 
 type c7failure struct {
@@ -548,6 +562,11 @@ func c7classOf(pf c7profile, sub bool, path string, rt c7rt, src string) string 
 	if c7predeclCaptured(out) {
 		return "unquoted-label-shadows-predeclared-identifier"
 	}
+	// 1b. a program of the "repeated declarations" family (c07_fam.go): never excused by a
+	// feature×kind family
+	if c7isFam(src) {
+		return "repeated-declarations:" + mode + ":" + kind
+	}
 	// 2. risk features of the program
 	feat := ""
 	switch {
@@ -580,8 +599,9 @@ func c7classOf(pf c7profile, sub bool, path string, rt c7rt, src string) string 
 }
 
 // check runs every profile on the root and on sub-values of one program.
-func (x *c7runner) check(p c7prog, r *Rng) {
+func (x *c7runner) check(p c7prog, r *Rng) (nFailed int) {
 	c := x.c
+	fam := c7isFam(p.src)
 	type result struct {
 		fails    []c7failure
 		nDirect  int
@@ -633,6 +653,10 @@ func (x *c7runner) check(p c7prog, r *Rng) {
 				}
 				if pf.raw && t.sub {
 					continue
+				}
+				if fam {
+					// family programs: pattern constraints compare by value too
+					pf.proj.patValues = true
 				}
 				// sub-values: a rotating subset of the profiles (all of them on the root)
 				if t.sub && (pi+ti+x.idx)%3 != 0 && c.Tier != "thorough" {
@@ -712,6 +736,10 @@ func (x *c7runner) check(p c7prog, r *Rng) {
 	}
 	seen := map[string]bool{}
 	nf := 0
+	nFailed = len(res.fails)
+	if x.suppress {
+		res.fails = nil
+	}
 	for _, f := range res.fails {
 		// one record per (class) and program; the others are counted
 		if seen[f.class] {
@@ -725,6 +753,7 @@ func (x *c7runner) check(p c7prog, r *Rng) {
 	for i := 0; i < res.nDirect-nf; i++ {
 		c.Direct(true, "", "", nil)
 	}
+	return nFailed
 }
 
 type c7progress struct {
@@ -760,6 +789,12 @@ func c7Worker(c *Cfg, w, n, start int) {
 					c.Count("gen:" + k)
 				}
 			}
+		}
+		if sl.fam != nil {
+			note(i, sl.prog.name, sl.fam.head()+"(family program)")
+			x.famRun(sl.prog.name, *sl.fam, sl.seed)
+			done++
+			continue
 		}
 		note(i, sl.prog.name, sl.prog.src)
 		x.check(sl.prog, sl.seed)
@@ -925,7 +960,8 @@ func c7lastLines(s string, n int) string {
 }
 
 // c7Replay: `-replay FILE` (a CUE program): every profile on the root and sub-values, verbose.
-// `-replay worker:w:n:start` is the worker mode; `-replay gen:N` dumps N generated programs.
+// `-replay worker:w:n:start` is the worker mode; `-replay gen:N` dumps N generated programs,
+// `-replay fam:dump` the programs of the "repeated declarations" family.
 func c7Replay(c *Cfg) {
 	name := c.Replay
 	mode := ""
@@ -945,6 +981,13 @@ func c7Replay(c *Cfg) {
 			if name == "dump" {
 				os.WriteFile(filepath.Join(c.Out, strings.ReplaceAll(p.name, ":", "_")+".cue"), []byte(p.src), 0o666)
 			}
+		}
+		return
+	case "fam":
+		// dump the programs of the "repeated declarations" family of this seed/tier
+		for i, sp := range c7FamSpecs(c, NewRng(c.Seed)) {
+			parts, _ := sp.parts()
+			fmt.Printf("---- fam#%d %s %s order=%s\n%s%s\n", i, sp.pos.name, sp.seqName(), sp.order(), sp.head(), strings.Join(parts, "\n"))
 		}
 		return
 	case "gen":
